@@ -91,15 +91,10 @@ theorem assocValue_wf {c : Value} (hc : VWf c) {idx v : Value} (hi : VWf idx) (h
   split
   · cases hc with
     | list h =>
-      refine EOk_bind (parseIdx_ok idx) (fun i _ => ?_)
-      cases i with
-      | elem i =>
-        dsimp only
-        refine EOk_bind (resolveIdx_ok _ _) (fun r _ => ?_)
-        cases r with
-        | inl p => exact VWf.list (VsWf.set h p hv)
-        | inr _ => eok_triv
-      | slice _ _ _ => eok_triv
+      refine EOk_bind (parseIdx_ok idx) (fun i _ => EOk_bind (resolveIdx_ok _ i) (fun r _ => ?_))
+      cases r with
+      | inl p => exact VWf.list (VsWf.set h p hv)
+      | inr _ => eok_triv
   · cases hc with
     | map h1 h2 =>
       have := mapPut_wf h1 h2 hi hv
